@@ -145,12 +145,12 @@ theorem sched_exec (m : M) (op : Op) (g : Good roots m) (d : DataOK roots news m
     have hY : ∀ k, sAny k (ps.zipIdx.map fun (pi : Nat × Nat) => Act.attach pi.1 ({ kind := .allInput (m.newCore {}).1.datas.length pi.2, chain := 0 } : Req)) = 0 := by
       intro k; unfold sAny
       rw [countP_map_const _ _ _ false (by intro x; simp [attAny, isAny])]; rfl
-    have gc := good_combinator g ps.length (ps.zipIdx.map fun (pi : Nat × Nat) => Act.attach pi.1 ({ kind := .allInput (m.newCore {}).1.datas.length pi.2, chain := 0 } : Req)) (by
+    have gc := good_combinator g ps.length ps false (ps.zipIdx.map fun (pi : Nat × Nat) => Act.attach pi.1 ({ kind := .allInput (m.newCore {}).1.datas.length pi.2, chain := 0 } : Req)) (by
       intro a ha
       simp only [List.mem_map] at ha
       obtain ⟨pi, _, rfl⟩ := ha
       exact ⟨pi.1, _, rfl, rfl, rfl, rfl, by show (m.newCore {}).1.datas.length < m.datas.length + 1; exact Nat.lt_succ_self _⟩)
-    have dc := data_combinator o d ps.length (ps.zipIdx.map fun (pi : Nat × Nat) => Act.attach pi.1 ({ kind := .allInput (m.newCore {}).1.datas.length pi.2, chain := 0 } : Req))
+    have dc := data_combinator o d ps.length ps false (ps.zipIdx.map fun (pi : Nat × Nat) => Act.attach pi.1 ({ kind := .allInput (m.newCore {}).1.datas.length pi.2, chain := 0 } : Req))
       (fun p hp => o.rootsLt p (hsub p hp)) (by intro k; rw [hA k, hA]; simp) (by intro k; rw [hY k, hY]; simp) (by rw [hA, hY]; simp) (Or.inr (hY _))
     have s1 : SchedOK (m.newCore {}).1.cores (m.newCore {}).1.stack := sched_newCore {} rfl hs'
     have s2 := sched_pushWalk (ps.zipIdx.map fun (pi : Nat × Nat) => Act.attach pi.1 ({ kind := .allInput (m.newCore {}).1.datas.length pi.2, chain := 0 } : Req)) s1
@@ -172,12 +172,12 @@ theorem sched_exec (m : M) (op : Op) (g : Good roots m) (d : DataOK roots news m
     have hA : ∀ k, sAll k (ps.map fun (p : Nat) => Act.attach p ({ kind := .anyInput (m.newCore {}).1.datas.length, chain := 0 } : Req)) = 0 := by
       intro k; unfold sAll
       rw [countP_map_const _ _ _ false (by intro x; simp [attAll, isAll])]; rfl
-    have gc := good_combinator g ps.length (ps.map fun (p : Nat) => Act.attach p ({ kind := .anyInput (m.newCore {}).1.datas.length, chain := 0 } : Req)) (by
+    have gc := good_combinator g ps.length ps true (ps.map fun (p : Nat) => Act.attach p ({ kind := .anyInput (m.newCore {}).1.datas.length, chain := 0 } : Req)) (by
       intro a ha
       simp only [List.mem_map] at ha
       obtain ⟨pi, _, rfl⟩ := ha
       exact ⟨pi, _, rfl, rfl, rfl, rfl, by show (m.newCore {}).1.datas.length < m.datas.length + 1; exact Nat.lt_succ_self _⟩)
-    have dc := data_combinator o d ps.length (ps.map fun (p : Nat) => Act.attach p ({ kind := .anyInput (m.newCore {}).1.datas.length, chain := 0 } : Req))
+    have dc := data_combinator o d ps.length ps true (ps.map fun (p : Nat) => Act.attach p ({ kind := .anyInput (m.newCore {}).1.datas.length, chain := 0 } : Req))
       (fun p hp => o.rootsLt p (hsub p hp)) (by intro k; rw [hA k, hA]; simp) (by intro k; rw [hY k, hY]; simp) (by rw [hA, hY]; simp) (Or.inl (hA _))
     have s1 : SchedOK (m.newCore {}).1.cores (m.newCore {}).1.stack := sched_newCore {} rfl hs'
     have s2 := sched_pushWalk (ps.map fun (p : Nat) => Act.attach p ({ kind := .anyInput (m.newCore {}).1.datas.length, chain := 0 } : Req)) s1
@@ -283,7 +283,7 @@ theorem opQuiescent_of_good {roots : List Nat} (m : M) (op : Op) (g : Good roots
     | rejected x => trivial
   | whenAll ps =>
     simp only [preSettle]
-    have gc := good_combinator g ps.length (ps.zipIdx.map fun (pi : Nat × Nat) => Act.attach pi.1 ({ kind := .allInput (m.newCore {}).1.datas.length pi.2, chain := 0 } : Req)) (by
+    have gc := good_combinator g ps.length ps false (ps.zipIdx.map fun (pi : Nat × Nat) => Act.attach pi.1 ({ kind := .allInput (m.newCore {}).1.datas.length pi.2, chain := 0 } : Req)) (by
       intro a ha
       simp only [List.mem_map] at ha
       obtain ⟨pi, _, rfl⟩ := ha
@@ -291,7 +291,7 @@ theorem opQuiescent_of_good {roots : List Nat} (m : M) (op : Op) (g : Good roots
     exact settle_quiescent _ gc.own
   | whenAny ps =>
     simp only [preSettle]
-    have gc := good_combinator g ps.length (ps.map fun (p : Nat) => Act.attach p ({ kind := .anyInput (m.newCore {}).1.datas.length, chain := 0 } : Req)) (by
+    have gc := good_combinator g ps.length ps true (ps.map fun (p : Nat) => Act.attach p ({ kind := .anyInput (m.newCore {}).1.datas.length, chain := 0 } : Req)) (by
       intro a ha
       simp only [List.mem_map] at ha
       obtain ⟨pi, _, rfl⟩ := ha
